@@ -52,6 +52,7 @@ POut(o) == IF o.kind = "vaa" THEN [kind |-> "vaa", vaa |-> PVaa(o.vaa)]
 Matches(s) ==
     /\ "panic" \notin DOMAIN s
     /\ gs = LOptSet(s.gs)
+    /\ gs = LOptSet(s.gst)          \* the set published to the gossip verifiers (GuardianSetState) is the processor's
     /\ DOMAIN agg = DOMAIN s.agg
     /\ \A d \in DOMAIN agg : PEntry(agg[d]) = LEntry(s.agg[d])
     /\ DOMAIN db = DOMAIN s.db
@@ -108,7 +109,10 @@ NotEnabled ==
     /\ Reject("the specification does not allow this step here (spec = state before the step)")
     /\ UNCHANGED vars
 
-LineOK == IF Trace[l].ev = "Reset" THEN TRUE ELSE Matches(Trace[l].s)
+\* "nocmp": the harness could not read the state at that point without racing the real event loop (run-loop mode:
+\* between a signing handler and the arrival of its looped-back signature); the step is applied, the comparison
+\* happens on the next line.
+LineOK == IF Trace[l].ev = "Reset" \/ "nocmp" \in DOMAIN Trace[l].s THEN TRUE ELSE Matches(Trace[l].s)
 
 \* Phase 1: the post-state the code reported must be the specification's.
 DoMatch ==
